@@ -717,6 +717,10 @@ pub fn mutate_bytes(layout: &Value, group: &str, enc: &[u8], m: &Value) -> Resul
             Ok(cuts.into_iter().map(|l| enc[..l].to_vec()).collect())
         }
         "extend" => Ok(vec![[enc, &[0u8][..]].concat(), [enc, &[0xffu8; 5][..]].concat()]),
+        "prepend" => {
+            let b: u8 = gets(m, "class").parse().map_err(|_| "prepend class".to_string())?;
+            Ok(vec![[&[b][..], enc].concat()])
+        }
         "point" | "scalar" | "tag" | "id" | "varlen" => {
             let fields = locate(layout, group, enc)?;
             let fname = gets(m, "field");
@@ -807,6 +811,49 @@ pub fn mutate_json(js: &str, m: &Value, group: &str) -> Result<Vec<String>, Stri
                 "nested" => vec![format!("{{\"a\":{js}}}"), format!("[[{js}]]")],
                 "blanks" => vec![format!(" \n\t{js} \r\n"), js.replace(':', " : ").replace(',', " ,\n")],
                 "deep" => vec!["[".repeat(200) + &"]".repeat(200), "{\"a\":".repeat(150) + "1" + &"}".repeat(150)],
+                // the *names* in the document (variant keys, scheme and curve names - every string that is not a hex
+                // leaf): a multi-byte character at every position, other letter case, emptied, very long
+                "names" => {
+                    let mut outs = vec![];
+                    let mut names = vec![];
+                    fn collect(v: &Value, out: &mut Vec<String>) {
+                        match v {
+                            Value::Object(o) => {
+                                for (k, x) in o {
+                                    out.push(k.clone());
+                                    collect(x, out);
+                                }
+                            }
+                            Value::Array(a) => a.iter().for_each(|x| collect(x, out)),
+                            Value::String(t) if t.len() < 64 => out.push(t.clone()),
+                            _ => {}
+                        }
+                    }
+                    collect(&doc, &mut names);
+                    names.sort();
+                    names.dedup();
+                    for nm in names.iter().filter(|n| !n.is_empty()) {
+                        let quoted = text(&Value::String(nm.clone()));
+                        let mut alts: Vec<String> = vec![nm.to_uppercase(), nm.to_lowercase(), String::new(), nm.repeat(40), format!(" {nm}"), format!("{nm}\u{0}")];
+                        for ch in ['\u{e9}', '\u{20ac}', '\u{1f600}'] {
+                            for p in 0..=nm.len() {
+                                if nm.is_char_boundary(p) {
+                                    let q = (p + 1).min(nm.len());
+                                    alts.push(format!("{}{}{}", &nm[..p], ch, &nm[q..]));
+                                }
+                            }
+                        }
+                        for a in alts {
+                            if &a != nm {
+                                outs.push(js.replacen(&quoted, &text(&Value::String(a)), 1));
+                            }
+                        }
+                    }
+                    if outs.is_empty() {
+                        outs.push(js.to_string());
+                    }
+                    outs
+                }
                 x => return Err(format!("unknown shape class {x}")),
             };
             Ok(outs)
@@ -876,6 +923,15 @@ pub fn mutate_json(js: &str, m: &Value, group: &str) -> Result<Vec<String>, Stri
                     "long" => format!("{old}00"),
                     "empty" => String::new(),
                     "upper" => old.to_uppercase(),
+                    // a sign in place of the zero high nibble of some byte ("+a" is what a radix parser takes for "0a"),
+                    // a blank in the same place
+                    "plus" | "blank" => {
+                        let ch = if class == "plus" { "+" } else { " " };
+                        match (0..old.len()).step_by(2).find(|i| &old[*i..*i + 1] == "0") {
+                            Some(i) => format!("{}{}{}", &old[..i], ch, &old[i + 1..]),
+                            None => format!("{}{}", ch, &old[1..]),
+                        }
+                    }
                     x => return Err(format!("unknown hex class {x}")),
                 },
             };
